@@ -199,6 +199,18 @@ def run_case(case):
             c.check(dist <= dist_prev + 1e-10 * max(1.0, dist_prev) + 64 * 2.0**-52 * scale, "descent",
                     f"distortion rose from {dist_prev!r} to {dist!r} at iteration {k}", tags)
         dist_prev = dist
+    # (1b) an exact tie in the very first assignment: the model after one iteration must be the result of *some*
+    # admissible tie-break (every tied sample counted in exactly one of its nearest clusters)
+    if bad_from == 1 and not isinstance(init, str):
+        cands = ok.lloyd_step_candidates(Xf, traj[0])
+        if cands is not None:
+            m = _fit(case, X, C0, 1, None)
+            c.transitions += 1
+            got = np.asarray(m.centroids_, float)
+            hit = any(np.allclose(got, np.array(ok.fl(cd)), rtol=1e-9, atol=64 * 2.0**-52 * big) for cd in cands)
+            c.check(hit, "tie_break", lambda: f"centroids after one iteration with an exact assignment tie {got.tolist()} are not the cluster means of any admissible tie-break", tags)
+            c.close(float(m.average_min_distance), float(crit[1]), "criterion", "criterion of the first iteration (independent of the tie-break)", tags, scale=scale)
+            c.count("tie_first_step_checked")
     # (2) stopping rule
     fired = False
     for cap in caps:
